@@ -3,6 +3,7 @@ package main
 // C08 Registration validated up front: ill-formed rejected, well-formed accepted.
 
 import (
+	"sort"
 	"go/token"
 	"go/types"
 	"strings"
@@ -117,21 +118,19 @@ func checkC08(c *Check) {
 	if ar := p.Meth("flamego", "router", "addRoute"); ar != nil {
 		key := p.FuncKey(ar)
 		var methods ssa.Value
-		// the value whose len()==0 test leads to a panic
-		for _, b := range ar.Blocks {
-			ifi, ok := b.Instrs[len(b.Instrs)-1].(*ssa.If)
-			if !ok {
-				continue
+		// the value whose len()==0 test (in any spelling) leads to a panic
+		allInstrs(ar, func(in ssa.Instruction) {
+			l, ok := in.(*ssa.Call)
+			if !ok || callName(&l.Call) != "builtin.len" || methods != nil {
+				return
 			}
-			inner, _ := unNot(ifi.Cond)
-			if bo, ok := inner.(*ssa.BinOp); ok {
-				if l := asCall(bo.X); l != nil && callName(&l.Call) == "builtin.len" && vConstInt(0)(bo.Y) {
-					if _, isSl := l.Call.Args[0].Type().Underlying().(*types.Slice); isSl {
-						methods = l.Call.Args[0]
-					}
-				}
+			if sl, isSl := l.Call.Args[0].Type().Underlying().(*types.Slice); !isSl || !isStringT(sl.Elem()) {
+				return
 			}
-		}
+			if len(edgesWhere(ar, cCmp(token.EQL, vIs(l), vConstInt(0)), true)) > 0 {
+				methods = l.Call.Args[0]
+			}
+		})
 		if methods == nil {
 			c.Bad(key+":method-check", p.FuncPos(ar), "no test of an empty method selection found: an unknown HTTP method is not rejected")
 		} else {
@@ -206,6 +205,7 @@ func checkC08(c *Check) {
 						}
 						return false, false
 					}, true)
+					eq = union(eq, flagTrueEdges(ar, eq))
 					if ok2, _ := guardedBy(ar, eq, isInstr(al)); !ok2 || len(eq) == 0 {
 						okProv, why = false, "a single-method selection is built without comparing with the httpMethods table"
 					}
@@ -302,20 +302,10 @@ func errorHandled(fn *ssa.Function, errV ssa.Value) string {
 					tested = true
 					for e := range edgesWhere(fn, cCmp(token.NEQ, vIs(v), vNil), true) {
 						// on the non-nil edge: every exit is a panic or an error return
-						in, _ := Query{Fn: fn}.Reach(e.B.Succs[e.S], 0, func(in ssa.Instruction) bool {
-							ret, ok := in.(*ssa.Return)
-							if !ok {
-								return false
-							}
-							if len(ret.Results) == 0 {
-								return true // plain return: error swallowed
-							}
-							last := ret.Results[len(ret.Results)-1]
-							if !isErrorT(last.Type()) {
-								return true
-							}
-							return vNil(last)
-						})
+						var in ssa.Instruction
+						if errorLeaks(e.B.Succs[e.S], e.B, v) {
+							in = e.B.Instrs[len(e.B.Instrs)-1]
+						}
 						if in != nil {
 							okTest = false
 						}
@@ -406,7 +396,9 @@ func checkDuplicateRules(c *Check) {
 		allInstrs(fn, func(in ssa.Instruction) {
 			if v, ok := in.(ssa.Value); ok && elem == nil {
 				if i, ok := elemIndex(v, old); ok && ascendingIndex(i) {
-					if _, isRange := strip(i).(*ssa.BinOp); isRange {
+					// the scan whose element's segment text is compared (the rank scan also walks the list)
+					cmp := cCmp(token.EQL, vCall("(*route.Segment).String", vCall("(route.Leaf).getSegment", vIs(v))), vAny)
+					if len(edgesWhere(fn, cmp, true)) > 0 {
 						elem, idx = v, i
 					}
 				}
@@ -524,14 +516,7 @@ func checkBindUniqueness(c *Check) {
 			}
 			switch {
 			case bindV != nil:
-				absent := edgesWhere(fn, cBool(func(v ssa.Value) bool {
-					e, ok := strip(v).(*ssa.Extract)
-					if !ok || e.Index != 1 {
-						return false
-					}
-					lk, ok := e.Tuple.(*ssa.Lookup)
-					return ok && set(lk.X) && strip(lk.Index) == strip(bindV)
-				}), false)
+				absent := edgesWhere(fn, cBool(p.vMember(set, vIs(bindV))), false)
 				ok, path := guardedBy(fn, absent, isInstr(al))
 				if ok && len(absent) > 0 {
 					c.OK(key, pos, "allocation reachable only on the `bind not among ancestor binds` edge", numInstrs(fn))
@@ -628,14 +613,7 @@ func checkBindListLoop(c *Check, fn *ssa.Function, al *ssa.Alloc, bindsV ssa.Val
 	}
 	exh := edgesWhere(fn, cCmp(token.LSS, vIs(idx), vLen(list)), false)
 	ok1, path1 := guardedBy(fn, exh, isInstr(al))
-	isLookup := func(v ssa.Value) bool {
-		e, ok := strip(v).(*ssa.Extract)
-		if !ok || e.Index != 1 {
-			return false
-		}
-		lk, ok := e.Tuple.(*ssa.Lookup)
-		return ok && set(lk.X) && strip(lk.Index) == strip(elem)
-	}
+	isLookup := c.P.vMember(set, vIs(elem))
 	absent := edgesWhere(fn, cBool(isLookup), false)
 	var mu ssa.Instruction
 	allInstrs(fn, func(in ssa.Instruction) {
@@ -685,10 +663,8 @@ func checkShapeGuards(c *Check) {
 			} else {
 				c.Bad(key+":not-optional", p.Pos(ci.Pos()), "a non-final optional segment can become a subtree: only the last segment may be optional", path)
 			}
-			notLast := union(
-				edgesWhere(fn, cCmp(token.LEQ, vLen(segs), vBin(token.ADD, vIs(next), vConstInt(1))), false),
-				edgesWhere(fn, cCmp(token.LSS, vBin(token.ADD, vIs(next), vConstInt(1)), vLen(segs)), true),
-			)
+			// next+1 < len(segments), in any spelling
+			notLast := edgesWhere(fn, cLinLess(linForm(1, []VM{vIs(next)}, []VM{vLen(segs)})), true)
 			ok, path = guardedBy(fn, notLast, isInstr(ci))
 			if ok && len(notLast) > 0 {
 				c.OK(key+":not-last", p.Pos(ci.Pos()), "the last segment becomes a leaf, earlier ones subtrees", numInstrs(fn))
@@ -832,4 +808,137 @@ func checkRootTypestate(c *Check, regs []*ssa.Function) {
 		})
 		c.Cond(okAll, "route.newTree:sets-parent-and-segment", p.FuncPos(nt), "every non-root tree has both parent and segment set from the constructor's arguments", "a tree node is built without parent or segment")
 	}
+}
+
+// errorLeaks: starting in block b (entered from pred) with err known non-nil, can a
+// return with a nil error (or a plain return) be reached? The search is
+// path-sensitive in one respect: values that carry the error on the current path
+// (wrapped by a call that takes it and yields an error, merged by a φ along the
+// edge taken, boxed into a variadic argument) are known non-nil, so a later
+// nil-test of such a value follows its non-nil branch only.
+func errorLeaks(b, pred *ssa.BasicBlock, err ssa.Value) bool {
+	type state struct {
+		b    *ssa.BasicBlock
+		pred *ssa.BasicBlock
+		key  string
+	}
+	seen := map[state]bool{}
+	var dfs func(b, pred *ssa.BasicBlock, carriers map[ssa.Value]bool, depth int) bool
+	keyOf := func(c map[ssa.Value]bool) string {
+		var ns []string
+		for v := range c {
+			ns = append(ns, v.Name())
+		}
+		sort.Strings(ns)
+		return strings.Join(ns, ",")
+	}
+	dfs = func(b, pred *ssa.BasicBlock, carriers map[ssa.Value]bool, depth int) bool {
+		if depth > 200 {
+			return true
+		}
+		st := state{b, pred, keyOf(carriers)}
+		if seen[st] {
+			return false
+		}
+		seen[st] = true
+		cs := map[ssa.Value]bool{}
+		for v := range carriers {
+			cs[v] = true
+		}
+		pi := -1
+		for i, p := range b.Preds {
+			if p == pred {
+				pi = i
+			}
+		}
+		for _, in := range b.Instrs {
+			switch x := in.(type) {
+			case *ssa.Phi:
+				if pi >= 0 && pi < len(x.Edges) && cs[x.Edges[pi]] {
+					cs[x] = true
+				} else {
+					delete(cs, x)
+				}
+			case *ssa.MakeInterface:
+				if cs[x.X] {
+					cs[x] = true
+				}
+			case *ssa.ChangeInterface:
+				if cs[x.X] {
+					cs[x] = true
+				}
+			case *ssa.Store:
+				if cs[x.Val] {
+					if ia, ok := x.Addr.(*ssa.IndexAddr); ok {
+						cs[ia.X] = true
+					} else {
+						cs[x.Addr] = true
+					}
+				}
+			case *ssa.UnOp:
+				if x.Op == token.MUL && cs[x.X] {
+					cs[x] = true
+				}
+			case *ssa.Slice:
+				if cs[x.X] {
+					cs[x] = true
+				}
+			case *ssa.Extract:
+				if cs[x.Tuple] {
+					cs[x] = true
+				}
+			case ssa.CallInstruction:
+				if cv, ok := x.(ssa.Value); ok {
+					res := x.Common().Signature().Results()
+					if res.Len() == 1 && isErrorT(res.At(0).Type()) {
+						for _, a := range x.Common().Args {
+							if cs[a] {
+								cs[cv] = true
+							}
+						}
+					}
+				}
+			case *ssa.Return:
+				if len(x.Results) == 0 {
+					return true
+				}
+				last := x.Results[len(x.Results)-1]
+				if !isErrorT(last.Type()) {
+					return true
+				}
+				return vNil(last)
+			case *ssa.Panic:
+				return false
+			case *ssa.If:
+				inner, pos := unNot(x.Cond)
+				if bo, ok := inner.(*ssa.BinOp); ok && (bo.Op == token.NEQ || bo.Op == token.EQL) {
+					var c ssa.Value
+					if vNil(bo.Y) {
+						c = bo.X
+					} else if vNil(bo.X) {
+						c = bo.Y
+					}
+					if c != nil && cs[c] {
+						// c is non-nil: (c != nil) is true
+						t := bo.Op == token.NEQ
+						if !pos {
+							t = !t
+						}
+						idx := 1
+						if t {
+							idx = 0
+						}
+						return dfs(b.Succs[idx], b, cs, depth+1)
+					}
+				}
+			}
+		}
+		for _, s := range b.Succs {
+			if dfs(s, b, cs, depth+1) {
+				return true
+			}
+		}
+		return false
+	}
+	return dfs(b, pred, map[ssa.Value]bool{err: true}, 0)
 }
